@@ -65,8 +65,16 @@ def run(chk: core.Check, tier: str, seed: int) -> None:
         texts.append(inject(t.replace("(", "( ").replace("==", " == ").replace("&&", " && "), rng))
     texts = list(dict.fromkeys(texts))
     recs = []
+    rng.shuffle(texts)
     for t in texts:
-        r = impl.rec_errpos(jp, t)
+        # a freshly built string object that is freed right after the call: anything the implementation
+        # remembers about a query by identity is wrong for the next query that lands at the same address
+        r = impl.rec_errpos(jp, (t + " ")[:-1])
+        if r is not None:
+            recs.append(r)
+    held = [(t + " ")[:-1] for t in texts[:400]]
+    for q in held:                       # and strings that stay alive
+        r = impl.rec_errpos(jp, q)
         if r is not None:
             recs.append(r)
     for r in recs:
